@@ -81,6 +81,28 @@ func c20Exec(c *engine.Ctx, cs c20Case) {
 		}
 	}
 	idx = saved
+	// extra ordinates are ignored whatever they hold: the same points with finite extras, and with
+	// finite extras except for a NaN at one interior point and an infinity at another, select the
+	// same indexes as with NaN extras everywhere
+	if cs.Stride > 2 && n >= 3 {
+		for variant := 0; variant < 2; variant++ {
+			alt := append([]float64{}, flat...)
+			for i := 0; i < n; i++ {
+				for k := 2; k < cs.Stride; k++ {
+					alt[i*cs.Stride+k] = float64(100*k + i)
+				}
+			}
+			if variant == 1 {
+				alt[(n/2)*cs.Stride+2] = math.NaN()
+				alt[(n/3)*cs.Stride+cs.Stride-1] = math.Inf(1)
+			}
+			var other []int
+			if pn, _ := engine.Guard(func() { other = xy.SimplifyFlatCoords(alt, t, cs.Stride) }); pn != nil || fmt.Sprint(other) != fmt.Sprint(saved) {
+				fail("extra-ordinates-matter", fmt.Sprintf("indexes %v with NaN in every extra ordinate, %v (panic %v) with finite extras%s", saved, other, pn, map[int]string{0: "", 1: fmt.Sprintf(" except NaN at point %d and +Inf at point %d", n/2, n/3)}[variant]))
+				return
+			}
+		}
+	}
 	if n < 3 {
 		if len(idx) != n {
 			fail("short-input", fmt.Sprintf("indexes %v for %d points", idx, n))
